@@ -184,7 +184,11 @@ theorem pick_tokU (a : Addr) (fuel : Nat) (w : Worker) :
       · split
         · exact Nat.le_trans (ih _) (by simp [tokWU])
         · split
-          · exact Nat.le_trans (ih _) (by simp [tokWU])
+          · exact Nat.le_trans (ih _) (by
+              simp only [tokWU]
+              have := cntU_filter_le a (fun t => t.addr != ‹Addr›) w.tasks
+              simp only [taskErase]
+              omega)
           · simp [tokMsgsU, sumBy, tokWU]
 
 /-- the picked task is an entry of the task table of the state `pick` returns -/
@@ -312,33 +316,30 @@ theorem runBody_U (a : Addr) (tbl : Table) (fuel : Nat) (r : Run) (w0 : Worker) 
       rw [startsOf_append]; simp [startsOf, sumBy, isStart]
 
 
-theorem completionLoop_U (a : Addr) (fuel i : Nat) (r : Run) :
-    (completionLoop fuel i r).1.w.tasks = r.w.tasks
-    ∧ (completionLoop fuel i r).1.w.delayed = r.w.delayed
-    ∧ tokMsgsU a (completionLoop fuel i r).1.out = tokMsgsU a r.out
-    ∧ (completionLoop fuel i r).1.evs = r.evs := by
-  induction fuel generalizing i r with
-  | zero => exact ⟨rfl, rfl, rfl, rfl⟩
-  | succ n ih =>
+theorem completionLoop_U (a : Addr) (ms : List Nat) (r : Run) :
+    (completionLoop ms r).1.w.tasks = r.w.tasks
+    ∧ (completionLoop ms r).1.w.delayed = r.w.delayed
+    ∧ tokMsgsU a (completionLoop ms r).1.out = tokMsgsU a r.out
+    ∧ (completionLoop ms r).1.evs = r.evs := by
+  induction ms generalizing r with
+  | nil => exact ⟨rfl, rfl, rfl, rfl⟩
+  | cons m ms ih =>
     simp only [completionLoop]
     split
+    · rename_i b _
+      split
+      · exact ih { r with w := { r.w with boxes := boxErase r.w.boxes m } }
+      · have := ih (r.cancelBox m b)
+        refine ⟨this.1, this.2.1, ?_, this.2.2.2⟩
+        rw [this.2.2.1]
+        have hc : tokMsgsU a ((List.range b.expected).map (fun i => Msg.cancel ⟨r.w.id, m, i⟩)) = 0 := by
+          apply sumBy_zero
+          intro x hx
+          simp only [List.mem_map] at hx
+          obtain ⟨i, _, rfl⟩ := hx
+          rfl
+        simp [Run.cancelBox, tokMsgsU_append, hc]
     · exact ⟨rfl, rfl, rfl, rfl⟩
-    · split
-      · split
-        · have := ih (i + 1) { r with w := { r.w with boxes := boxErase r.w.boxes ‹Nat› } }
-          exact this
-        · rename_i _ m _ _ b _ _
-          have := ih (i + 1) (r.cancelBox m b)
-          refine ⟨this.1, this.2.1, ?_, this.2.2.2⟩
-          rw [this.2.2.1]
-          have hc : tokMsgsU a ((List.range b.expected).map (fun i => Msg.cancel ⟨r.w.id, m, i⟩)) = 0 := by
-            apply sumBy_zero
-            intro x hx
-            simp only [List.mem_map] at hx
-            obtain ⟨i, _, rfl⟩ := hx
-            rfl
-          simp [Run.cancelBox, tokMsgsU_append, hc]
-      · exact ⟨rfl, rfl, rfl, rfl⟩
 
 theorem processAwait_U (r r' : Run) (m : Nat) (nxt : Bool) (h : processAwait r m nxt = some r') :
     r'.w.tasks = r.w.tasks ∧ r'.w.delayed = r.w.delayed ∧ r'.out = r.out ∧ r'.t.addr = r.t.addr
@@ -380,7 +381,7 @@ theorem finishStep_U (a : Addr) (r : Run) (oc : Outcome) (hs : r.t.started = tru
       unfold processCompletion
       split
       · rename_i hn; rw [hn] at hg; simp at hg
-      · obtain ⟨c1, c2, c3, c4⟩ := completionLoop_U a (r.t.owned.length + 1) 0 (completionEnter r v)
+      · obtain ⟨c1, c2, c3, c4⟩ := completionLoop_U a r.t.owned (completionEnter r v)
         simp only [tokWU, c1, c2, c3, c4]
         unfold completionEnter
         split
